@@ -890,3 +890,35 @@ func (m *Model) Hash() string {
 
 // EqualBytes is bytes.Equal treating nil and empty alike.
 func EqualBytes(a, b []byte) bool { return bytes.Equal(a, b) }
+
+// Clone returns a deep copy of the model.
+func (m *Model) Clone() *Model {
+	c := &Model{Buckets: map[string]*Bucket{}, seq: m.seq, vseq: m.vseq, useq: m.useq}
+	for name, b := range m.Buckets {
+		nb := &Bucket{Name: b.Name, Versioning: b.Versioning, Keys: map[string]*KeyState{}, Uploads: map[string]*Upload{}}
+		for k, ks := range b.Keys {
+			nks := &KeyState{}
+			for _, v := range ks.Versions {
+				nv := *v
+				nv.Parts = append([]Part(nil), v.Parts...)
+				nv.Meta = v.Meta.Clone()
+				nv.Tags = cloneTags(v.Tags)
+				nks.Versions = append(nks.Versions, &nv)
+			}
+			nb.Keys[k] = nks
+		}
+		for id, u := range b.Uploads {
+			nu := *u
+			nu.Meta = u.Meta.Clone()
+			nu.Tags = cloneTags(u.Tags)
+			nu.Parts = map[int]*UploadPart{}
+			for n, p := range u.Parts {
+				np := *p
+				nu.Parts[n] = &np
+			}
+			nb.Uploads[id] = &nu
+		}
+		c.Buckets[name] = nb
+	}
+	return c
+}
